@@ -500,6 +500,18 @@ func (p *Prog) gateAppCallee(c *Ctx, f *Func) {
 					st2 = append(st2, m)
 				}
 			}
+			// the clause is about a loop that matches by comparison; a loop
+			// without one (it only collects the versions for the error text, the
+			// match is a map lookup) has nothing to skip
+			hasCmp := false
+			for _, m := range g.Nodes {
+				if isCmp(m) {
+					hasCmp = true
+				}
+			}
+			if !hasCmp {
+				starts = nil
+			}
 			seen := g.Reach(st2, isCmp, nil)
 			if _, skips := seen[hn]; skips && len(starts) > 0 {
 				c.R.Violate("R-GATE", p.Pos(rangeStmt), f.Name, "G-app/every offered version is compared", "an iteration over the offered versions can go on to the next version without comparing this one with the version the plugin announced: the list sent to the plugin is built from the same map without that condition, so the plugin may announce a version the client then refuses although a common version exists", p.PathTo(seen, hn))
